@@ -763,17 +763,19 @@ var modules = map[string]*moduleSpec{
 		prims:    onStorePrims(enterprisePrims), consts: map[string]constDef{"types.ModuleName": {"MOD_enterprise", tModName}, "k.authority": {"KEEPER_authority", tAddrStr}}, world: "esworld",
 		imports:  "lib.Prelude lib.GoSdk GeneratedEnterpriseTypes model.EnterpriseStoreWorld",
 		typesMod: "", keeperMod: "GeneratedEnterpriseKeeperOnStore", listName: "enterprise_keeper_onstore_other_functions"},
-	"wrkchainonstore": {name: "wrkchain", pbFiles: []string{"wrkchain.pb.go", "tx.pb.go", "genesis.pb.go", "query.pb.go"}, typeFuncs: [][2]string{{"params.go", "validateFeeDenom"}, {"params.go", "validateFeeRegister"}, {"params.go", "validateFeeRecord"}, {"params.go", "validateFeePurchaseStorage"}, {"params.go", "validateDefaultStorageLimit"}, {"params.go", "validateMaxStorageLimit"}, {"params.go", "Params.Validate"}}, goFiles: []string{"register.go", "record.go", "msg_server.go"},
+	"wrkchainonstore": {name: "wrkchain", pbFiles: []string{"wrkchain.pb.go", "tx.pb.go", "genesis.pb.go", "query.pb.go"}, typeFuncs: [][2]string{{"params.go", "validateFeeDenom"}, {"params.go", "validateFeeRegister"}, {"params.go", "validateFeeRecord"}, {"params.go", "validateFeePurchaseStorage"}, {"params.go", "validateDefaultStorageLimit"}, {"params.go", "validateMaxStorageLimit"}, {"params.go", "Params.Validate"}, {"genesis.go", "NewGenesisState"}}, goFiles: []string{"register.go", "record.go", "msg_server.go"},
 		want: []string{"QuickCheckHeightIsNew", "GetMaxPurchasableSlots", "IncreaseInStateStorage", "RegisterNewWrkChain", "RecordNewWrkchainHashes",
-			"RegisterWrkChain", "RecordWrkChainBlock", "PurchaseWrkChainStateStorage", "UpdateParams"},
-		prims: onStorePrims(registryPrims("WrkChain", "WrkChainBlock")), consts: registryConsts, world: "wsworld",
+			"RegisterWrkChain", "RecordWrkChainBlock", "PurchaseWrkChainStateStorage", "UpdateParams", "InitGenesis", "ExportGenesis"},
+		rootFiles: []string{"genesis.go"},
+		prims:     onStorePrims(registryPrims("WrkChain", "WrkChainBlock")), consts: registryConsts, world: "wsworld",
 		imports:  "lib.Prelude lib.GoSdk GeneratedWrkchainTypes model.WrkchainStoreWorld",
 		typesMod: "", keeperMod: "GeneratedWrkchainKeeperOnStore", listName: "wrkchain_keeper_onstore_other_functions",
 		msgTypes: []string{"MsgRegisterWrkChain", "MsgRecordWrkChainBlock", "MsgPurchaseWrkChainStateStorage"}},
-	"beacononstore": {name: "beacon", pbFiles: []string{"beacon.pb.go", "tx.pb.go", "genesis.pb.go", "query.pb.go"}, typeFuncs: [][2]string{{"params.go", "validateFeeDenom"}, {"params.go", "validateFeeRegister"}, {"params.go", "validateFeeRecord"}, {"params.go", "validateFeePurchaseStorage"}, {"params.go", "validateDefaultStorageLimit"}, {"params.go", "validateMaxStorageLimit"}, {"params.go", "Params.Validate"}}, goFiles: []string{"register.go", "record.go", "msg_server.go"},
+	"beacononstore": {name: "beacon", pbFiles: []string{"beacon.pb.go", "tx.pb.go", "genesis.pb.go", "query.pb.go"}, typeFuncs: [][2]string{{"params.go", "validateFeeDenom"}, {"params.go", "validateFeeRegister"}, {"params.go", "validateFeeRecord"}, {"params.go", "validateFeePurchaseStorage"}, {"params.go", "validateDefaultStorageLimit"}, {"params.go", "validateMaxStorageLimit"}, {"params.go", "Params.Validate"}, {"genesis.go", "NewGenesisState"}}, goFiles: []string{"register.go", "record.go", "msg_server.go"},
 		want: []string{"GetMaxPurchasableSlots", "IncreaseInStateStorage", "RegisterNewBeacon", "RecordNewBeaconTimestamp",
-			"RegisterBeacon", "RecordBeaconTimestamp", "PurchaseBeaconStateStorage", "UpdateParams"},
-		prims: onStorePrims(registryPrims("Beacon", "BeaconTimestamp")), consts: registryConsts, world: "bsworld",
+			"RegisterBeacon", "RecordBeaconTimestamp", "PurchaseBeaconStateStorage", "UpdateParams", "InitGenesis", "ExportGenesis"},
+		rootFiles: []string{"genesis.go"},
+		prims:     onStorePrims(registryPrims("Beacon", "BeaconTimestamp")), consts: registryConsts, world: "bsworld",
 		imports:  "lib.Prelude lib.GoSdk GeneratedBeaconTypes model.BeaconStoreWorld",
 		typesMod: "", keeperMod: "GeneratedBeaconKeeperOnStore", listName: "beacon_keeper_onstore_other_functions",
 		msgTypes: []string{"MsgRegisterBeacon", "MsgRecordBeaconTimestamp", "MsgPurchaseBeaconStateStorage"}},
